@@ -254,7 +254,7 @@ PARTS = {
     "query": dict(
         component="query", spec="MC_Query.tla",
         mc={"quick": ["MC_Query.cfg"], "thorough": ["MC_Query.cfg", "MC_Query_b.cfg"]},
-        goals_cfg="MC_Query_goal.cfg", goals=["GoalStalled", "GoalLateSuccess", "GoalFinishFull"],
+        goals_cfg="MC_Query_goal.cfg", goals=["GoalStalled", "GoalLateSuccess", "GoalFinishFull", ("GoalShortAfterBigAnswer", "MC_Query_goalbig.cfg")],
         sim={"quick": [dict(cfg="MC_Query_sim.cfg", num=150, depth=40)], "thorough": [dict(cfg="MC_Query_sim.cfg", num=3000, depth=60)]},
         drive={"quick": 4000, "thorough": 100000},
         trace="Trace_Query.tla", mon_cfg="Trace_Query_mon.cfg", strict_cfg="Trace_Query_strict.cfg",
